@@ -72,6 +72,7 @@ PROGRAMS = {
     'disc_two_parents_meta': [Spec('t', 'Prior'), Spec('sim', 'Simulator', ['t'], observed=True),
                               Spec('s1', 'Summary', ['sim']), Spec('s2', 'Summary', ['sim']),
                               Spec('d', 'Discrepancy', ['s1', 's2'], uses_meta=True)],
+    'mini': [Spec('t', 'Prior'), Spec('sim', 'Simulator', ['t'], observed=True), Spec('s', 'Summary', ['sim'])],
     'indep_priors': [Spec('b', 'Prior'), Spec('a', 'Prior'), Spec('c', 'Prior'), Spec('sim', 'Simulator', ['b', 'a', 'c'], observed=True)],
     'fork_sims': [Spec('t', 'Prior'), Spec('y', 'Simulator', ['t'], observed=True), Spec('x', 'Simulator', ['t'], observed=True),
                   Spec('s', 'Summary', ['x', 'y'])],
